@@ -16,7 +16,7 @@ from . import c02
 
 PROPERTY = "C16"
 LEVEL = "exploration"
-BUDGET = {"quick": 170, "thorough": 3000}
+BUDGET = {"quick": 300, "thorough": 3000}
 ASSUMPTIONS = [
     "the matching relation used by the monitor is issubclass on the wrapped types, i.e. funsor's own deep_issubclass; its axioms "
     "(reflexive, transitive, agreement with isinstance) are checked separately on the reached type pool",
